@@ -127,6 +127,8 @@ func c08Scenarios(tier string) []*Scenario {
 						b = 0
 					} else if tier == "thorough" {
 						b = 2
+					} else if n == 3 && len(g["a"])+len(g["b"])+len(g["c"]) == 0 {
+						b = 0 // three independent tasks with every outcome assignment: all completion orders, no preemptions, in the quick tier
 					}
 					cfg := PipeCfg{Conc: 1, QL: -1, Graph: g, Allow: allow, Continue: cont}
 					scs = append(scs, &Scenario{
